@@ -72,7 +72,7 @@ class Run:
                 self.dist[f] = self.dist.get(f, 0) + 1
             if len(self.samples) < 3 and self.prop.nontrivial(inp, tr):
                 self.samples.append({'input': sx(inp), 'impl_trace': impl_s[:600], 'model_trace': model_s[:600], 'spec_on_impl': sx(spec_impl)})
-            if spec_model != 'ok':
+            if spec_model != 'ok' and not in_class:
                 self.model_spec_failures.append((inp, tr, model_tr, spec_model))
             if not impl_ok:
                 clauses = spec_impl[1:] if isinstance(spec_impl, list) else [spec_impl]
